@@ -96,6 +96,10 @@ func c07NewDir() string {
 	return filepath.Join("/dev/shm", fmt.Sprintf("%s%d-%d", c07DirPrefix, os.Getpid(), c07DirSeq.Add(1)))
 }
 
+func c07PrivateOptions() engine.Options {
+	return engine.Options{CacheSize: 1 << 20, MemTableSize: 1 << 20} // tuning only
+}
+
 func c07OpenBackend() (*c07Backend, error) {
 	dir := c07NewDir()
 	eng, err := engine.Open(dir, c07EngineOptions())
@@ -211,6 +215,7 @@ type c07Inst struct {
 	ids     map[uint64]c07Loc
 	hist    []string
 	kind    string // kind of the last event (for fingerprints)
+	kind2   string // kind of the event before the current one
 	initErr error
 }
 
@@ -222,6 +227,7 @@ var (
 	c07nTrusted, c07nTruncRemoved, c07nTrimRemoved, c07nTrimOver, c07nTrimPartial      atomic.Int64
 	c07nReopenRows, c07nColdRows, c07nWarmRows, c07nPhysReopen                         atomic.Int64
 	c07nRemovedIDMiss, c07nRemovedKeyMiss, c07nLookupHit, c07nChecks                   atomic.Int64
+	c07nLimOver, c07nReopenPending, c07nPhysReopenPending, c07nAppendAfterPendingOver  atomic.Int64
 )
 
 func c07NewInst(cfg *c07Cfg) *c07Inst {
@@ -440,6 +446,10 @@ func (c *c07Chan) trimThrough(k string) (uint64, bool) {
 		return c.leo + 1, true
 	case "lim":
 		return c.leo, len(c.rows) > 0
+	case "limover":
+		// bounded trim (MaxMessages:1) through a boundary BEYOND the log end while at least
+		// two rows are retained: the boundary is adopted, rows stay physically present
+		return c.leo + 2, len(c.rows) >= 2
 	default:
 		n, _ := strconv.Atoi(k)
 		t := c.start - 1 + uint64(n)
@@ -469,7 +479,7 @@ func c07AlphabetQuick(in *c07Inst) []string {
 	evs = append(evs, in.trustedEvents(0, "af:A:m3")...)
 	evs = append(evs, "ap:B:m1", "ap:B:m6")
 	evs = append(evs, in.truncEvents(0, "1")...)
-	evs = append(evs, in.trimEvents(0, "1", "all")...)
+	evs = append(evs, in.trimEvents(0, "1", "all", "limover")...)
 	evs = append(evs, in.truncEvents(1, "1")...)
 	if a.leo > 0 {
 		evs = append(evs, "ck:A")
@@ -498,7 +508,7 @@ func c07AlphabetWide(in *c07Inst) []string {
 	evs = append(evs, "ap:B:m1", "ap:B:m3", "ap:B:m5", "ap:B:m6")
 	evs = append(evs, in.trustedEvents(1, "af:B:m2")...)
 	evs = append(evs, in.truncEvents(0, "1", "2", "all")...)
-	evs = append(evs, in.trimEvents(0, "1", "2", "all", "over", "lim")...)
+	evs = append(evs, in.trimEvents(0, "1", "2", "all", "over", "lim", "limover")...)
 	evs = append(evs, in.truncEvents(1, "1")...)
 	evs = append(evs, in.trimEvents(1, "1")...)
 	if a.leo > 0 {
@@ -528,12 +538,10 @@ func c07AlphabetWide(in *c07Inst) []string {
 // database (at most one per path).
 func c07AlphabetPhysical(in *c07Inst) []string {
 	a, b := in.ch[0], in.ch[1]
+	_ = b
 	evs := []string{"ap:A:m1", "ap:A:m5", "apb:A:m2+m3", "ap:B:m1"}
 	evs = append(evs, in.truncEvents(0, "1")...)
-	evs = append(evs, in.trimEvents(0, "1", "all")...)
-	if a.leo > 0 {
-		evs = append(evs, "ck:A")
-	}
+	evs = append(evs, in.trimEvents(0, "1", "all", "limover", "lim")...)
 	if (a.leo > 0 || b.leo > 0) && !in.private {
 		evs = append(evs, "reopen!")
 	}
@@ -549,6 +557,7 @@ func (in *c07Inst) Apply(evl string, _ *mc.Env) (string, error) {
 		return "", mc.Violatef("C07:harness-init", "cannot initialise instance: %v", in.initErr)
 	}
 	in.hist = append(in.hist, evl)
+	in.kind2 = in.kind
 	p := strings.Split(evl, ":")
 	switch p[0] {
 	case "ap", "apb", "apx", "apbad":
@@ -601,6 +610,9 @@ func (in *c07Inst) Apply(evl string, _ *mc.Env) (string, error) {
 		in.kind = "reopen"
 		if len(in.ch[0].rows)+len(in.ch[1].rows) > 0 {
 			c07nReopenRows.Add(1)
+		}
+		if in.pendingBeyond() {
+			c07nReopenPending.Add(1)
 		}
 		in.releaseLeases()
 		in.db = message.NewDB(in.be.eng)
@@ -660,6 +672,9 @@ func (in *c07Inst) applyAppend(p []string) (string, error) {
 	wantRes := message.AppendResult{BaseSeq: c.leo + 1, LastSeq: c.leo + uint64(len(recs)), Count: len(recs)}
 	if res != wantRes {
 		return "", mc.Violatef("C07:append-result-mismatch", "%s: result %+v, want %+v (sequences must be contiguous from LEO+1)", evl, res, wantRes)
+	}
+	if in.kind2 == "reopen" && in.pendingBeyond() {
+		c07nAppendAfterPendingOver.Add(1)
 	}
 	in.modelAppend(ci, recs)
 	c07nAppendOK.Add(1)
@@ -765,7 +780,7 @@ func (in *c07Inst) applyTrim(p []string) (string, error) {
 		err error
 	)
 	want := message.RetentionTrimResult{}
-	if p[2] == "lim" {
+	if p[2] == "lim" || p[2] == "limover" {
 		res, err = c.log.TrimPrefixThroughLimit(c07Ctx, through, message.RetentionTrimOptions{MaxMessages: 1})
 		cand := 0
 		for _, r := range c.rows {
@@ -781,6 +796,9 @@ func (in *c07Inst) applyTrim(p []string) (string, error) {
 				want.More = true
 				c.start = first + 1
 				c07nTrimPartial.Add(1)
+				if through > c.leo {
+					c07nLimOver.Add(1)
+				}
 			} else {
 				c.start = through + 1
 			}
@@ -833,7 +851,7 @@ func (in *c07Inst) applyTrim(p []string) (string, error) {
 // it (MessageDB.Close closes pebble) and opens it again.
 func (in *c07Inst) applyPhysicalReopen(evl string) (string, error) {
 	dir := c07NewDir()
-	eng, err := engine.Open(dir, c07EngineOptions())
+	eng, err := engine.Open(dir, c07PrivateOptions())
 	if err != nil {
 		return "", mc.Violatef("C07:harness-init", "cannot open private database: %v", err)
 	}
@@ -852,7 +870,7 @@ func (in *c07Inst) applyPhysicalReopen(evl string) (string, error) {
 		sub.Close()
 		return "", mc.Violatef("C07:database-close-error", "%s: MessageDB.Close: %v", evl, err)
 	}
-	eng, err = engine.Open(dir, c07EngineOptions())
+	eng, err = engine.Open(dir, c07PrivateOptions())
 	if err != nil {
 		_ = os.RemoveAll(dir)
 		return "", mc.Violatef("C07:database-reopen-error", "%s: reopen: %v", evl, err)
@@ -872,7 +890,22 @@ func (in *c07Inst) applyPhysicalReopen(evl string) (string, error) {
 	in.hist = hist
 	in.kind = "reopen"
 	c07nPhysReopen.Add(1)
+	if in.pendingBeyond() {
+		c07nPhysReopenPending.Add(1)
+	}
 	return "reopen!", nil
+}
+
+// pendingBeyond reports that some channel still holds rows although its adopted retention
+// boundary lies beyond its newest row (the recovered log end must come from the retention
+// state, not from the newest surviving row).
+func (in *c07Inst) pendingBeyond() bool {
+	for _, c := range in.ch {
+		if n := len(c.rows); n > 0 && c.adopted > c.rows[n-1].seq {
+			return true
+		}
+	}
+	return false
 }
 
 func (in *c07Inst) Canon() string { return "" }
@@ -1037,10 +1070,8 @@ func (in *c07Inst) checkChan(ci int) error {
 	}
 	// contiguity of the full read, stated directly
 	if all, err := l.Read(c07Ctx, 1, message.ReadOptions{}); err == nil {
-		for i, m := range all {
-			if m.MessageSeq != c.start+uint64(i) || (i == len(all)-1 && m.MessageSeq != c.leo) {
-				return mc.Violatef(in.fp("Read", "not-contiguous"), "%s: full read %s is not contiguous from the retained start to the log end", where, c07Brief(all))
-			}
+		if msg := c07Contiguous(c.start, c.adopted, c.leo, len(all), func(i int) uint64 { return all[i].MessageSeq }); msg != "" {
+			return mc.Violatef(in.fp("Read", "not-contiguous"), "%s: full read %s: %s", where, c07Brief(all), msg)
 		}
 	}
 
@@ -1225,6 +1256,34 @@ func (in *c07Inst) checkChan(ci int) error {
 	return nil
 }
 
+// c07Contiguous states contiguity directly: rows at or below the adopted retention boundary
+// (logically trimmed, physical deletion may be pending) run contiguously from the retained
+// start; every sequence above the boundary up to the log end is present exactly once.
+func c07Contiguous(start, adopted, leo uint64, n int, seq func(int) uint64) string {
+	next := start
+	i := 0
+	for ; i < n && seq(i) <= adopted; i++ {
+		if seq(i) != next {
+			return fmt.Sprintf("row %d below the retention boundary has sequence %d, want %d", i, seq(i), next)
+		}
+		next++
+	}
+	want := adopted + 1
+	if start > want {
+		want = start
+	}
+	for ; i < n; i++ {
+		if seq(i) != want {
+			return fmt.Sprintf("row %d above the retention boundary has sequence %d, want %d", i, seq(i), want)
+		}
+		want++
+	}
+	if leo >= want {
+		return fmt.Sprintf("rows end at %d but the log end is %d", want-1, leo)
+	}
+	return ""
+}
+
 // ---------------------------------------------------------------- test
 
 func TestVerifC07(t *testing.T) {
@@ -1244,7 +1303,7 @@ func TestVerifC07(t *testing.T) {
 	systems := []sys{
 		{&c07Cfg{"store-main", c07AlphabetQuick}, ev.Pick(r, 4, 5), true, map[string]any{"alphabet": "quick (<=19 events/state)"}},
 		{&c07Cfg{"store-wide", c07AlphabetWide}, ev.Pick(r, 3, 4), true, map[string]any{"alphabet": "wide (<=41 events/state)"}},
-		{&c07Cfg{"store-physical-reopen", c07AlphabetPhysical}, ev.Pick(r, 3, 5), true, map[string]any{"alphabet": "physical (<=9 events/state), real close+open of a private pebble database, at most once per path"}},
+		{&c07Cfg{"store-physical-reopen", c07AlphabetPhysical}, ev.Pick(r, 5, 6), true, map[string]any{"alphabet": "physical (<=10 events/state), real close+open of a private pebble database, at most once per path"}},
 	}
 	_ = th
 	var keys []string
@@ -1291,6 +1350,10 @@ func TestVerifC07(t *testing.T) {
 	g("trims-removing-rows", &c07nTrimRemoved, 10)
 	g("trims-beyond-log-end", &c07nTrimOver, 1)
 	g("partial-trims", &c07nTrimPartial, 1)
+	g("bounded-trims-beyond-log-end-leaving-rows", &c07nLimOver, 10)
+	g("logical-reopens-with-rows-below-a-boundary-beyond-the-log-end", &c07nReopenPending, 5)
+	g("physical-reopens-with-rows-below-a-boundary-beyond-the-log-end", &c07nPhysReopenPending, 5)
+	g("appends-right-after-such-a-reopen", &c07nAppendAfterPendingOver, 5)
 	g("logical-reopens-with-rows", &c07nReopenRows, 10)
 	g("physical-reopens", &c07nPhysReopen, 10)
 	g("cold-lease-reacquisitions-with-rows", &c07nColdRows, 10)
